@@ -137,6 +137,37 @@ def sub_roundtrip(sh, site, s, inplace=False):
         sh.count('obs.rt_ok')
 
 
+def sub_api_isolation(sh, s):
+    """a text written into one API-built object (property value, note) shows up in that object's rendering only"""
+    from pydbml import Database
+    from pydbml.classes import Column, Table
+    sh.case(['apiiso', s], nontrivial=True, sample={'check': 'api-isolation', 'text': s[:80]})
+    sh.count('obs.api_isolation')
+    db = Database(allow_properties=True)
+    t = Table('isot')
+    a, b = Column('isoa', 'int'), Column('isob', 'int')
+    t.add_column(a)
+    t.add_column(b)
+    db.add(t)
+    t2 = Table('isou', columns=[Column('isoc', 'int')])
+    db.add(t2)
+    marker = 'ISOq ' + s
+    a.properties['isokey'] = marker
+    a.note.text = marker
+    try:
+        leaks = [n_ for n_, o_ in (('sibling column', b), ('other table', t2), ('column of other table', t2.columns[0])) if 'ISOq' in o_.dbml]
+        later = Column('isolater', 'int')
+        if later.properties or 'ISOq' in (later.note.text or ''):
+            leaks.append('a column built later')
+    except Exception as e:  # noqa
+        cls, where = monitors.classify_exc(e)
+        sh.violation('rt', f'rt:render-raises@api-isolation:{cls}', f'{cls}: {e}', {'kind': 'c13iso', 'text': s})
+        return
+    if leaks:
+        sh.violation('rt', 'rt:text-shows-up-on-another-object@api-built', f'a text written into one column appears in: {leaks}', {'kind': 'c13iso', 'text': s})
+    a.properties.clear()
+
+
 def sub_sql(sh, site, s):
     doc = site_doc(site, s)
     tc = norm.text_class(s)
@@ -315,6 +346,9 @@ def run_shard(spec, tier, seed, budget_s):
             for site in EXPR_SITES:
                 work.append(('rt', site, x))
                 work.append(('sql', site, x))
+    for x in raw[:400:7]:
+        if x and '\n' not in x:
+            work.append(('apiiso', 'cprop', x))
     sh.count('obs.work_items_total', len(work) if i == 0 else 0)
     for j, (what, site, s) in enumerate(work):
         if j % n != i:
@@ -328,6 +362,8 @@ def run_shard(spec, tier, seed, budget_s):
             sub_roundtrip(sh, site, s)
         elif what == 'rt-inplace':
             sub_roundtrip(sh, site, s, inplace=True)
+        elif what == 'apiiso':
+            sub_api_isolation(sh, s)
         else:
             sub_sql(sh, site, s)
     return sh
